@@ -69,11 +69,42 @@ def ctx():
 
 
 class SymIntZ:
-    """mathematical integer (z3 Int)"""
-    __slots__ = ("t",)
+    """mathematical integer (z3 Int); `bits` = (lo, hi) when the value is known to occupy only bit positions
+    lo..hi-1 (results of `& mask` and `<<`), which makes `|` with disjoint operands an addition"""
+    __slots__ = ("t", "bits", "cbase")
 
-    def __init__(self, t):
+    def __init__(self, t, bits=None, cbase=0):
         self.t = t
+        self.bits = bits
+        self.cbase = cbase      # concrete bits already OR-ed in (outside `bits`)
+
+    def __or__(self, o):
+        if self.bits is None:
+            raise Unsupported("| on a mathematical integer of unknown bit range")
+        lo, hi = self.bits
+        if isinstance(o, int) and not isinstance(o, bool) and o >= 0:
+            if (o >> lo) & ((1 << (hi - lo)) - 1):
+                raise Unsupported("| with overlapping constant bits")
+            nb = self.cbase | o
+            return SymIntZ(self.t + (nb - self.cbase), self.bits, nb)
+        if isinstance(o, SymIntZ) and o.bits is not None and (o.bits[1] <= lo or o.bits[0] >= hi) \
+                and self.cbase == 0 and o.cbase == 0:
+            return SymIntZ(self.t + o.t, (min(lo, o.bits[0]), max(hi, o.bits[1])))
+        raise Unsupported("| of overlapping / unknown bit ranges on mathematical integers")
+
+    __ror__ = __or__
+
+    def to_bytes(self, length=1, byteorder="big", *, signed=False):
+        return ZBytes(self, length, byteorder)
+
+    def bit_length(self):
+        c = ctx()
+
+        def mk():
+            k = c.fresh_int("bl")
+            c.cons.append(k >= 0)
+            return k
+        return SymIntZ(c.memo("bitlen", self.t, mk))
 
     @staticmethod
     def lift(x):
@@ -136,7 +167,8 @@ class SymIntZ:
     def __lshift__(self, k):
         if not isinstance(k, int):
             raise Unsupported("symbolic shift")
-        return SymIntZ(self.t * (1 << k))
+        b = None if self.bits is None else (self.bits[0] + k, self.bits[1] + k)
+        return SymIntZ(self.t * (1 << k), b)
 
     def __rshift__(self, k):
         if not isinstance(k, int):
@@ -147,7 +179,7 @@ class SymIntZ:
         if not isinstance(m, int) or m < 0:
             raise Unsupported("& with non-constant")
         if m & (m + 1) == 0:               # 2^n - 1
-            return SymIntZ(self.t % (m + 1))
+            return SymIntZ(self.t % (m + 1), (0, m.bit_length()))
         if m & (m - 1) == 0:               # single bit 2^n
             return SymIntZ(((self.t / m) % 2) * m)
         raise Unsupported("& with general mask on a mathematical integer")
@@ -201,6 +233,16 @@ class SymIntZ:
         return "SymIntZ(%s)" % self.t
 
 
+class ZBytes:
+    """result of int.to_bytes on a mathematical integer: only the integer and the length are kept"""
+
+    def __init__(self, value, length, byteorder):
+        self.value, self.length, self.byteorder = value, length, byteorder
+
+    def __len__(self):
+        return self.length if isinstance(self.length, int) else 0
+
+
 class SymReal:
     """binary64 value in the rounding-error model: t is a z3 Real term"""
     __slots__ = ("t", "exact_int")
@@ -216,12 +258,12 @@ class SymReal:
         x = z3.ToReal(i.t)
 
         def mk():
-            e = c.err()
+            r = c.fresh_real("c")
+            ab = z3.If(x >= 0, x, -x)
             big = z3.Or(i.t > 2 ** 53, i.t < -(2 ** 53))
-            c.cons.append(z3.Implies(z3.Not(big), e == 0))
-            return e
-        e = c.memo("i2f", x, mk)
-        return SymReal(x * (1 + e))
+            c.cons.append(z3.If(big, z3.And(r - x <= rv(U) * ab, x - r <= rv(U) * ab), r == x))
+            return r
+        return SymReal(c.memo("i2f", x, mk))
 
     @staticmethod
     def lift(x):
@@ -243,7 +285,10 @@ class SymReal:
         exact = z3.simplify(exact)
 
         def mk():
-            r = exact * (1 + c.err())
+            # linear form of the relative-error bound: |r - exact| <= 2^-53 * |exact|  (r is a fresh variable)
+            r = c.fresh_real("r")
+            ab = z3.If(exact >= 0, exact, -exact)
+            c.cons.append(z3.And(r - exact <= rv(U) * ab, exact - r <= rv(U) * ab))
             kf = c.fresh_int("f")
             kr = z3.ToReal(kf)
             c.cons.append(z3.And(kr <= exact, exact < kr + 1))
@@ -373,7 +418,7 @@ def _is_pow2(x):
     return (n & (n - 1) == 0) and (d & (d - 1) == 0)
 
 
-register_symbolic(SymIntZ, SymReal)
+register_symbolic(SymIntZ, SymReal, ZBytes)
 
 # teach the generic helpers about the new proxies
 _old_int_call = P._IntNS.__call__
